@@ -16,3 +16,13 @@ func C01_Accept() {
 	verif.Assert((err == nil) == ref.ok, "accepted exactly when the grammar accepts")
 	verif.Assert((c != nil) == (err == nil), "non-nil object exactly when nil error")
 }
+
+// C01_AcceptShaped: the same on the structured inputs (canonical base part
+// with arbitrary values, arbitrary tail).
+func C01_AcceptShaped() {
+	s := shapedInput()
+	c, err := ParseVector(s)
+	ref := refParse(s)
+	verif.Assert((err == nil) == ref.ok, "accepted exactly when the grammar accepts")
+	verif.Assert((c != nil) == (err == nil), "non-nil object exactly when nil error")
+}
